@@ -534,7 +534,7 @@ def oracle(case, out, stats):
                 bad('script', 'refine/count/draw calls inconsistent with the script')
             stats['script_long_runs'] = stats.get('script_long_runs', 0) + (1 if draws >= 999 else 0)
         elif op == 'rc.load':
-            st = {'mininl': case['meta']['mininl'], 'best': 0}
+            st = {'mininl': 2 * (3 if _dim(tk[1]) == 2 else 4), 'best': 0, 'isf': tk[1][2] == 'f'}
         elif op == 'rc.count':
             sigma = tok_val(tk[1])
             i = f.index('inl')
@@ -545,7 +545,7 @@ def oracle(case, out, stats):
             nb = int(f[j + 3])
             best = _parse_corrs(f[j + 4:])
             ret = int(f[1])
-            isf = case['meta']['ty'][2] == 'f'
+            isf = st.get('isf', False)
             thr = 9 * sigma * sigma
             if isf:
                 thr = to_f32(thr)
@@ -574,12 +574,12 @@ def oracle(case, out, stats):
                     tx=tx, ty=ty, theta=th, type=tk[1])
         elif op == 'ransac.synth':
             ret, err, rmse = f[1] == '1', tok_val(f[3]), tok_val(f[5])
-            sigma = case['meta']['sigma']
+            sigma = tok_val(tk[2])
             stats['synth_sets'] = stats.get('synth_sets', 0) + 1
             stats['synth_worst_err'] = max(stats.get('synth_worst_err', 0.0), err)
             if not ret or not (err <= TOL) or not (rmse < sigma):
-                bad('ransac-outliers', 'ret=%s error=%.4g rmse=%.4g sigma=%.4g n=%d outliers=%d' % (
-                    ret, err, rmse, sigma, case['meta']['n'], case['meta']['outliers']), type=case['meta']['ty'])
+                bad('ransac-outliers', 'ret=%s error=%.4g rmse=%.4g sigma=%.4g n=%s outliers=%s' % (
+                    ret, err, rmse, sigma, tk[3], case.get('meta', {}).get('outliers')), type=tk[1])
         elif op in ('rr.real', 'icp.trace', 'icp.match'):
             _PHASE2.append((ci, op, line, o))
     return fails
